@@ -1,6 +1,7 @@
 import Crusta.Model.Cli
 import Crusta.Gen.Problem
 import Crusta.Gen.Dispatch
+import Crusta.Gen.Wrapper
 import Crusta.Proofs.Oracle
 import Crusta.Proofs.CliCompose
 import Crusta.Proofs.CliFile
@@ -341,5 +342,18 @@ theorem dispatch_is_the_source :
       rcases henc with rfl | rfl | rfl | rfl <;> decide
     | false =>
       cases σ <;> rcases henc with rfl | rfl | rfl | rfl <;> decide
+
+/-- **the wrapper's argument translation is the one in the source** (`main_iccma23.rs`, regenerated
+on every run: the common arguments, the special `--problems` invocation, the three sub-commands and
+the arguments appended to a solve invocation, with the order of the `chain` calls checked by the generator) -/
+theorem wrapper_is_the_source (args : List String) :
+    ∃ a p s, Gen.wrapperSubcommands = [a, p, s] ∧
+      wrapperArgs args =
+        (if args.isEmpty then a :: Gen.wrapperCommonArgs
+         else if args == Gen.wrapperSpecialInvocation then p :: Gen.wrapperCommonArgs
+         else [s] ++ args ++ Gen.wrapperCommonArgs ++ Gen.wrapperSolveTail) := by
+  refine ⟨_, _, _, rfl, ?_⟩
+  unfold wrapperArgs
+  simp [Gen.wrapperCommonArgs, Gen.wrapperSpecialInvocation, Gen.wrapperSolveTail]
 
 end Crusta.C05
